@@ -44,7 +44,7 @@ Forms == { Form(0, 1, 0), Form(0, 0, 1), Form(1, 2, 0), Form(0, 1, 1), Form(3, 0
 ParamMenu == { PGate(k, f) : k \in {"Rx", "Ry", "Rz", "CU1", "CRz", "CRx"}, f \in Forms }
              \cup { [PGate("Rz", f) EXCEPT !.dg = 1] : f \in { Form(0, 1, 0), Form(1, 0, 2) } }
              \cup { PGate("scalar", f) : f \in { Form(0, 1, 0), Form(4, 0, 2) } }
-             \cup { PGate("mscalar", f) : f \in { Form(0, 0, 1), Form(2, 1, 0) } }
+             \cup { PGate("mscalar", f) : f \in { Form(0, 0, 1), Form(2, 1, 0), Form(1, 2, 0 - 1) } }
 PlainMenu == { [MG(k, 0, 0, 0, <<>>, <<>>) EXCEPT !.par = 0, !.pf = Const(0)] : k \in {"H", "CX", "S"} }
              \cup { [MG("Measure", 1, 1, 0, <<>>, <<>>) EXCEPT !.par = 0, !.pf = Const(0)],
                     [MG("Discard", 0, 0, 0, <<"q">>, <<>>) EXCEPT !.par = 0, !.pf = Const(0)] }
